@@ -27,8 +27,8 @@ ASSUMPTIONS = [
     "while restricted and is then left again two cycles later (as the property text allows)",
     "R ties: rs_a = constants (1,2,1,2,3,3), all 7 input bits; rs_c = (1,2,1,2,7,3): the 2-bit timers can never equal "
     "c_2p5ms = 7, so the handshake never times out and HS, HS-suspend, resume are reachable with a 4x4 timer space (rule_timeout "
-    "is not claimed there); thorough adds rs_b = (1,2,2,2,20,21) under the input restriction low_speed_only = bus_busy = "
-    "disconnect = 0",
+    "is not claimed there); thorough adds rs_b = (1,2,2,2,20,21) (HS and the time-out both reachable) under the input "
+    "restriction low_speed_only = bus_busy = disconnect = 0, vbus_connected = 1",
 ]
 TIE_IMPORTS = "From LunaModel Require Import ResetSeq ResetSeq_proofs.\n"
 
@@ -66,13 +66,13 @@ def ports(d):
     return ins, outs
 
 
-def mk(name, consts, kind, env_mask=0, all_rules=True):
+def mk(name, consts, kind, env_mask=0, env_val=0, all_rules=True):
     def build():
         d = make_dut(consts)
         ins, outs = ports(d)
         return d, ins, outs
     t = Target(name, build)
-    t.consts = consts; t.kind = kind; t.env_mask = env_mask; t.all_rules = all_rules
+    t.consts = consts; t.kind = kind; t.env_mask = env_mask; t.env_val = env_val; t.all_rules = all_rules
     return t
 
 
@@ -85,7 +85,7 @@ def targets(tier):
           mk("rs_m1", (2, 3, 2, 3, 30, 40), "mid"),
           mk("rs_big", (15, 30, 120, 200, 400, 500), "big")]
     if tier != "quick":
-        ts += [mk("rs_b", (1, 2, 2, 2, 20, 21), "R", env_mask=0b1000101),
+        ts += [mk("rs_b", (1, 2, 2, 2, 20, 21), "R", env_mask=0b1001101, env_val=0b0001000),
                mk("rs_m2", (3, 6, 5, 8, 60, 63), "mid"),
                mk("rs_m3", (4, 8, 7, 9, 100, 128), "mid"),
                mk("rs_big2", (150, 300, 1200, 1500, 2500, 3000), "big")]
@@ -180,7 +180,7 @@ def random_trace(rng, n, mask=0):
                  line_state=hold, disconnect=int(rng.random() < 0.03))
         for name, sh in IN_SHIFT.items():
             if name != "line_state" and (mask >> sh) & 1:
-                c[name] = 0
+                c[name] = 1 if name == "vbus_connected" else 0
         tr.append(c)
     return tr
 
@@ -195,7 +195,7 @@ def traces(target, rng, tier):
         for _ in range(10 * n):
             tr = expand(scenario(rng, k, allow_ls=not (target.env_mask & 1)))[:300]
             if target.env_mask:
-                tr = [dict(c, bus_busy=0, disconnect=0, low_speed_only=0) for c in tr]
+                tr = [dict(c, bus_busy=0, disconnect=0, low_speed_only=0, vbus_connected=1) for c in tr]
             out.append(tr)
     elif target.kind == "mid":
         for _ in range(14 * n):
@@ -215,13 +215,15 @@ def obligations(targets, tier):
         Kc = coqK(t.consts)
         allr = "true" if t.all_rules else "false"
         if t.kind == "R" and "noR" not in DEV:
-            env = f"(fun _ i => N.land i {t.env_mask} =? 0)" if t.env_mask else "(fun _ _ => true)"
+            env = f"(fun _ i => N.land i {t.env_mask} =? {t.env_val})" if t.env_mask else "(fun _ _ => true)"
             obs.append(tie.rlock(
                 f"ob_{t.name}", t, St="rs_state", mstep=f"rs_step {Kc}", enc=f"rs_enc {Kc}", dec=f"rs_dec {Kc}",
                 wf=f"rs_wf {Kc}", dec_enc=f"rs_dec_enc {Kc}", wf_step=f"rs_wf_step {Kc}", m0="rs_init",
                 wf_m0="apply rs_wf_init.", env=env, alpha_bits=7, fuel=100000,
-                describe=f"USBResetSequencer with cycle constants {t.consts} == FSM model, all input traces"
-                         + (f" with input bits {t.env_mask:#09b} held low" if t.env_mask else "")))
+                describe=f"USBResetSequencer with cycle constants {t.consts} == property-satisfying FSM model, all input traces "
+                         "(a counterexample is an input trace on which the code departs from the model; the three departures known "
+                         "in /repo and the rules they break are in findings/C19-D*.json/.diff)"
+                         + (" with low_speed_only = bus_busy = disconnect = 0 and vbus_connected = 1" if t.env_mask else "")))
         if t.kind == "mid" or (t.kind == "R" and (tier != "quick" or "noR" in DEV)):
             obs.append(tie.cmon(f"spec_{t.name}", t, mon=f"(rs_mon {Kc} {allr})", m0="rs_mon0",
                                 describe=f"C19 rules ({'all' if t.all_rules else 'all but the time-out bound'}) evaluated over "
@@ -240,8 +242,8 @@ def tie_theorems(targets, tier):
         Kc = coqK(t.consts); G = t.modname
         rule = "rule_all" if t.all_rules else "rule_safe"
         thm = "rs_all" if t.all_rules else "rs_safe"
-        envhyp = f"Forall (fun i => (N.land i {t.env_mask} =? 0) = true) tr ->\n  " if t.env_mask else ""
-        envprf = (f"(env_ok_of_Forall _ _ (fun i => N.land i {t.env_mask} =? 0) _ _ HE)" if t.env_mask
+        envhyp = f"Forall (fun i => (N.land i {t.env_mask} =? {t.env_val}) = true) tr ->\n  " if t.env_mask else ""
+        envprf = (f"(env_ok_of_Forall _ _ (fun i => N.land i {t.env_mask} =? {t.env_val}) _ _ HE)" if t.env_mask
                   else "(env_ok_true _ _ _ _)")
         s += f"""
 Theorem C19_{t.name} : forall tr, Forall (fun i => i < 2 ^ N.of_nat 7) tr ->
@@ -315,7 +317,7 @@ def correspondence(tier, rng, bdir, cov):
         return dict(property=PID, obligation="table_60MHz", reason="the cycle constants the class computes differ from the "
                     "60 MHz specification table", class_constants=dict(zip(CONST_NAMES, real)),
                     specification=dict(zip(CONST_NAMES, SPEC_60MHZ)), confirmed_on_pysim=True, nofail=False)
-    ntr = 1 if tier == "quick" else 5
+    ntr = 1 if tier == "quick" else 3
     t0 = time.time()
     cycles = 0
     for idx in range(ntr):
